@@ -256,3 +256,5 @@ def run(ctx):
     ctx.guarded(r, r3d_var_array_lengths)
     # named variables reach the inner evaluators through recycled scratch rows (C14j-1: a row "already holding" the value)
     ctx.include('C10', 'variable values are bound through recycled scratch rows', only=('R1s', 'R1v'))
+    # every variable row reaches the native code through the bulk driver's pointer lists (small-n copy, main call, tail)
+    ctx.include('C02', 'variable rows are handed to native code by the bulk driver', only=('R4',))
